@@ -475,7 +475,7 @@ func refScenario(sc *proto.Scenario, chain []proto.Ref) (*proto.Scenario, string
 		if op.Kind != proto.OpLower && op.Kind != proto.OpOneshot {
 			op.Mod = obj(op.Mod)
 		}
-		if op.Kind == proto.OpLower || op.Kind == proto.OpResolve {
+		if op.Kind == proto.OpLower || op.Kind == proto.OpResolve || op.Kind == proto.OpClone {
 			op.Dst = obj(op.Dst)
 		}
 		if op.HLSL != nil && op.HLSL.ReuseOptions {
